@@ -1,5 +1,7 @@
 """C03 — every calculated property is a pure function of the current (species, x0, T, P)."""
 import copy
+import glob
+import os
 import json
 import random
 import re
@@ -135,6 +137,54 @@ def encode_ops(history, w, idx):
     return toks
 
 
+
+class Injected(RuntimeError):
+    pass
+
+
+def raising_call(m, meth, which, k):
+    """call `meth` while the k-th inner call of `which` (through the object) raises; -> None or a description of visible inputs that changed"""
+    before = (m.T, m.P, list(m.x0))
+    orig = getattr(m, which)
+    n = {"calls": 0}
+
+    def boom(*a, **kw):
+        n["calls"] += 1
+        if n["calls"] == k:
+            raise Injected("injected failure of an inner evaluation")
+        return orig(*a, **kw)
+
+    setattr(m, which, boom)
+    try:
+        try:
+            call(m, meth, True)
+        except Injected:
+            pass
+    finally:
+        delattr(m, which)
+    after = (m.T, m.P, list(m.x0))
+    if before != after:
+        return {"what": f"{meth} raised while evaluating {which} (call {k}) and left the visible inputs changed", "before": before, "after": after}
+    return None
+
+
+def natural_raise(case):
+    """a state where an evaluation at a perturbed temperature raises without any injection (recorded corpus)"""
+    sps = [_sp.from_name(n) for n in case["species"]]
+    m = mpc.mixture.LTE(sps, case["x0"], case["T"], case["P"], 1e20, 1e-10, 1000)
+    before = (m.T, m.P)
+    raised = None
+    with warnings.catch_warnings():
+        warnings.simplefilter("ignore")
+        try:
+            getattr(m, case["method"])()
+        except Exception as e:  # noqa: BLE001
+            raised = type(e).__name__
+    if (m.T, m.P) != before:
+        return {"what": f"{case['method']} raised {raised} and left T changed", "before": before, "after": (m.T, m.P)}
+    return None
+
+
 def check(run):
     rng = random.Random(run.seed)
     thorough = run.tier == "thorough"
@@ -187,6 +237,23 @@ def check(run):
         if bad and found is None:
             found = {"kind": "history", "species_set": setname, "n_mixtures": nmix, "controls": ctl, "history": h, **bad}
         run.sample({"species_set": setname, "n_mixtures": nmix, "history": h[:8]}, cap=3)
+    # histories in which a call raises part-way: the visible inputs must be what they were (exception safety of the perturbing methods)
+    for setname in ("oxy", "co"):
+        sp, x0s = sets[setname]
+        for meth, which in (("calculate_heat_capacity", "calculate_enthalpy"), ("calculate_heat_capacity", "calculate_composition"),
+                            ("calculate_thermal_conductivity", "calculate_composition"), ("calculate_thermal_conductivity", "calculate_species_enthalpies")):
+            for k in (1, 2, 3):
+                m = mpc.mixture.LTE([copy.deepcopy(x) for x in sp], x0s[0], rng.choice(TGRID), rng.choice(PGRID), 1e20, 1e-10, 1000)
+                bad = raising_call(m, meth, which, k)
+                run.count(1, distinct_key=("raise", setname, meth, which, k))
+                if bad and found is None:
+                    found = {"kind": "raising-history", "species_set": setname, "method": meth, "inner": which, "k": k, **bad}
+    for f in sorted(glob.glob(os.path.join(common.VERIF, "corpus", "C03", "*.json"))):
+        case = json.load(open(f))
+        bad = natural_raise(case)
+        run.count(1, distinct_key=("corpus", os.path.basename(f)))
+        if bad and found is None:
+            found = {"kind": "raising-history", "corpus": os.path.basename(f), "case": case, **bad}
     # K: the model's predicted flag after every op, per mixture
     if not okd:
         broken.append({"stage": "extraction", "detail": dlog[-600:]})
@@ -221,6 +288,13 @@ def check(run):
 
 def replay(path):
     d = json.load(open(path))
+    if d.get("kind") == "raising-history":
+        print(d.get("what"), d.get("before"), d.get("after"))
+        if "case" in d:
+            bad = natural_raise(d["case"])
+            print("now:", bad or "inputs unchanged")
+            return 1 if bad else 0
+        return 1
     if d.get("kind") != "history":
         print("replay names a broken obligation:", json.dumps(d.get("broken"), indent=1)[:2000])
         return 1
